@@ -38,6 +38,9 @@ type Cfg struct {
 	Preload bool `json:"preloaded_by_api,omitempty"`
 	// InitWrite: the file is rewritten while the file source starts up: 1 = when it creates its watcher (the
 	// watch is not registered yet: no event will tell), 2 = right after the watch was registered (an event follows)
+	// InitFail: the first Initialize() of the file source fails (the watch cannot be registered: the file is not
+	// there yet); the file is then written and Initialize() called again
+	InitFail  bool     `json:"init_fail,omitempty"`
 	InitWrite int      `json:"init_write,omitempty"`
 	InitList  []string `json:"init_list,omitempty"`
 }
@@ -150,6 +153,8 @@ func (P) Gen(rng *sim.Rng, tier string) *harness.Case {
 	if cfg.File && rng.Chance(0.25) {
 		cfg.InitWrite = 1 + rng.Intn(2)
 		cfg.InitList = pick(cfg.FileM)
+	} else if cfg.File && rng.Chance(0.15) {
+		cfg.InitFail = true
 	}
 	return &harness.Case{Cfg: harness.MustJSON(cfg), Callers: [][]harness.Op{ops}}
 }
@@ -632,12 +637,39 @@ func (P) Exec(c *harness.Case) *harness.Outcome {
 				}
 			}
 		}
+		if cfg.InitFail && cfg.InitWrite == 0 {
+			// the application starts before its rule file has been deployed
+			_ = os.Remove(fsrc.path)
+			simfsnotify.OnNewWatcher = func() {
+				if w := simfsnotify.Last(); w != nil {
+					w.AddErr = 1 // like inotify, the stub cannot watch a path that does not exist
+				}
+			}
+			var ierr error
+			harness.Call(o, "C18.panic", 0, func() { ierr = fsrc.ds.Initialize() })
+			simfsnotify.OnNewWatcher = nil
+			if o.Failed() {
+				return o
+			}
+			if ierr == nil {
+				o.Fail("C18.file-init", 0, "Initialize() on a missing file reported success")
+				return o
+			}
+			o.Fault("file_source_started_before_its_file_exists")
+			_ = os.WriteFile(fsrc.path, fsrc.content, 0o644)
+		}
 		harness.Call(o, "C18.panic", 0, func() {
 			if err := fsrc.ds.Initialize(); err != nil {
 				o.Fail("C18.file-init", 0, "Initialize: %v", err)
 			}
 		})
 		simfsnotify.OnNewWatcher, simfsnotify.OnAdded = nil, nil
+		if cfg.InitFail && cfg.InitWrite == 0 && !o.Failed() {
+			if w := simfsnotify.Last(); w == nil || !w.Watching(fsrc.path) {
+				o.Fail("C18.file-source-not-started", 0, "Initialize() failed once (the file did not exist yet), the file was written and Initialize() called again: it returned nil, but no watch is registered on the file - the source will never converge to it")
+				return o
+			}
+		}
 		if o.Failed() {
 			return o
 		}
